@@ -105,11 +105,27 @@ def run(ch, tier):
     cfp = fp(sp.fingerprint())
     # ---------------- run A: all conditions hold
     sim = Sim(sp, ignore_contract=False)
+    # in a third of the runs another interpreter of the same statechart (same state and transition names, other values
+    # of the variables) is alive and stepped in between: interpreters share nothing, so this must not be observable
+    shadow = None
+    if ch.s('cfg').flag(1, 3):
+        from sim.chart import build_api
+        shadow = Sim(sp, ignore_contract=False, statechart=build_api(sp, preamble='v = 500\nw = [1, 2, 3]'))
+        res.stats['runs_with_a_second_live_interpreter_of_the_same_chart'] += 1
     vm = VModel()
     A = []           # (step index, log) per step
     hi = 14 if tier == 'quick' else 25
     for r in standard_ops(sim, ch, tier, lo=3, hi=hi):
         res.stats['steps'] += 1
+        if shadow is not None:
+            try:
+                if r.ms is not None and r.ms.event is not None:
+                    shadow.it.queue(r.ms.event.name)
+                shadow.P.truth = dict(r.truth)
+                shadow.it.execute_once()
+                shadow.it.execute_once()
+            except Exception:
+                shadow = None
         if not r.init:
             legal_or_abandon(sp, r.pre, 'C08')
         if r.exc is not None:
